@@ -302,13 +302,24 @@ def np_sqrt(interp, args, kwargs, node):
     return E.sqrt(interp, args[0], node)
 
 
+def _wide_dtype(dt):
+    """'int' / 'float' for the dtypes whose arithmetic is modelled (unbounded ints, reals); narrow integer / float dtypes wrap around or
+    round and are outside the assumed contracts"""
+    name = concrete_str(dt) if isinstance(dt, VStr) else (dt.name if isinstance(dt, VType) else None)
+    if name in ("int", "int64", "numpy.int64", "intp"):
+        return "int"
+    if name in ("float", "float64", "numpy.float64", "double"):
+        return "float"
+    raise Unsupported(f"array dtype {name or dt!r}: narrow or unknown dtypes (overflow / rounding) are not modelled")
+
+
 @extern("numpy.zeros")
 def np_zeros(interp, args, kwargs, node):
     n = args[0]
     if not isinstance(n, VInt):
         raise Unsupported("np.zeros with a non-integer shape")
     dt = kwargs.get("dtype")
-    z = VInt(0, True) if (dt is not None and concrete_str(dt) == "int") else VReal(0, True)
+    z = VInt(0, True) if (dt is not None and _wide_dtype(dt) == "int") else VReal(0, True)
     ek = types_IntT(np=True) if isinstance(z, VInt) else vec.T_RealT(np=True)
     interp.ctx.assumed.add("extern:numpy.zeros(n) is a fresh array of n zeros")
     if not interp.spec_mode:
